@@ -139,6 +139,7 @@ func cmdCheck(args []string) {
 	tier := fs.String("tier", "quick", "quick|thorough")
 	noEvidence := fs.Bool("no-evidence", false, "do not write evidence/replay files (self-test)")
 	replayOut := fs.String("replay-dir", "", "override replay output directory")
+	focus := fs.String("focus", "", "self-test only: verify just the functions whose name contains this (no closure)")
 	fs.Parse(args)
 	if fs.NArg() < 1 {
 		fmt.Fprintln(os.Stderr, "usage: gvc check [flags] <property-id>")
@@ -241,6 +242,9 @@ func cmdCheck(args []string) {
 			}
 			done[key] = true
 			c := P.Specs.Contracts[key]
+			if *focus != "" && !strings.Contains(displayName(c.Pkg, c.Key), *focus) {
+				continue
+			}
 			r := VerifyFunc(P, c, maxPaths)
 			if r.Err != "" {
 				failures = append(failures, failure{name: r.Name + " / verification-error", fr: r, reason: r.Err, P: P})
